@@ -5,7 +5,7 @@ from functools import wraps
 from dateparser.data.languages_info import language_order
 
 from .parser import date_order_chart
-from .utils import registry
+from .utils import get_timezone_from_tz_string, registry
 
 
 @registry
@@ -169,6 +169,19 @@ def _check_between_0_and_1(setting_name, setting_value):
         )
 
 
+def _check_timezone(setting_name, setting_value):
+    if setting_name == "TIMEZONE" and "local" in setting_value.lower():
+        return
+    try:
+        get_timezone_from_tz_string(setting_value)
+    except Exception:
+        raise SettingValidationError(
+            '"{}" is not a timezone that "{}" can take'.format(
+                setting_value, setting_name
+            )
+        )
+
+
 def check_settings(settings):
     """
     Check if provided settings are valid, if not it raises `SettingValidationError`.
@@ -180,13 +193,15 @@ def check_settings(settings):
             "type": str,
         },
         "TIMEZONE": {
-            # we don't check invalid Timezones as they raise an error
+            # "values" covered by the 'extra_check'
             "type": str,
+            "extra_check": _check_timezone,
         },
         "TO_TIMEZONE": {
             # It defaults to None, but it's not allowed to use it directly
-            # "values" can take unlimited options
-            "type": str
+            # "values" covered by the 'extra_check'
+            "type": str,
+            "extra_check": _check_timezone,
         },
         "RETURN_AS_TIMEZONE_AWARE": {
             # It defaults to 'default', but it's not allowed to use it directly
